@@ -9,6 +9,33 @@ open Hms.Core Hms.Core.Comp
 theorem depthGE_pos (e : Expr) : 1 ≤ Frag.depthGE e := by
   cases e <;> try (simp [Frag.depthGE]; done)
   case ifE sp ty c t el => cases el <;> simp [Frag.depthGE]
+  case matchE sp ty c arms dflt => cases dflt <;> simp [Frag.depthGE]
+
+theorem definedLabels_litTests (sp : Span) (name : String) : ∀ (lits : List Expr), definedLabels (litTests sp name lits) = [] := by
+  intro lits
+  induction lits with
+  | nil => rfl
+  | cons l ls ih =>
+    have hl : definedLabels (litCode l) = [] := by cases l <;> rfl
+    simp only [litTests, definedLabels_append, hl, ih,
+      definedLabels_instr _ _ _ (rfl : isLabel (Instr.eqPopOnce : SInstr) = false),
+      definedLabels_instr _ _ _ (rfl : isLabel (Instr.not : SInstr) = false),
+      definedLabels_instr _ _ _ (rfl : isLabel (Instr.jumpIfFalse _ : SInstr) = false), definedLabels_nil,
+      List.append_nil]
+
+/-- The cascade defines no label; the case labels it generates are fresh. -/
+theorem armTests_lbl (mod : String) (sp : Span) : ∀ (arms : List (List Expr × Expr)) (lm : LM),
+    definedLabels (armTests mod sp arms lm).1 = [] ∧
+    LblInv mod lm (armTests mod sp arms lm).2.2 (armTests mod sp arms lm).2.1 := by
+  intro arms
+  induction arms with
+  | nil => intro lm; exact ⟨rfl, LblInv.nil mod lm⟩
+  | cons a rest ih =>
+    intro lm
+    obtain ⟨h1, h2⟩ := ih (freshLabel mod lm "case").2
+    refine ⟨by simp only [armTests, definedLabels_append, definedLabels_litTests, h1, List.append_nil], ?_⟩
+    simp only [armTests]
+    exact (LblInv.single mod lm "case" (by decide)).append h2
 
 theorem cgE_labels (mod : String) (ρ φ : String → Option String) : ∀ (n : Nat),
     (∀ (e : Expr) (lm : LM), Frag.depthGE e ≤ n →
@@ -16,25 +43,59 @@ theorem cgE_labels (mod : String) (ρ φ : String → Option String) : ∀ (n : 
     (∀ (b : Block) (lm : LM), Frag.depthGB b ≤ n →
       LblInv mod lm (cgB mod ρ φ b lm).2 (definedLabels (cgB mod ρ φ b lm).1)) ∧
     (∀ (args : List (String × Expr)) (lm : LM), Frag.depthGArgs args ≤ n →
-      LblInv mod lm (cgArgs mod ρ φ args lm).2 (definedLabels (cgArgs mod ρ φ args lm).1)) := by
+      LblInv mod lm (cgArgs mod ρ φ args lm).2 (definedLabels (cgArgs mod ρ φ args lm).1)) ∧
+    (∀ (sp : Span) (after : String) (arms : List (List Expr × Expr)) (nms : List String) (lm : LM),
+      Frag.depthGArms arms ≤ n → arms.length = nms.length →
+      ∃ inner, LblInv mod lm (cgArms mod ρ φ sp after arms nms lm).2 inner ∧
+        (definedLabels (cgArms mod ρ φ sp after arms nms lm).1).Perm (nms ++ inner)) := by
   intro n
   induction n with
   | zero =>
-    refine ⟨?_, ?_, ?_⟩
+    refine ⟨?_, ?_, ?_, ?_⟩
     · intro e lm hd; have := depthGE_pos e; omega
     · intro b lm hd
       obtain ⟨sp, ty, stmts, oe⟩ := b
       cases oe <;> simp [Frag.depthGB] at hd
     · intro args lm hd
       cases args <;> simp [Frag.depthGArgs] at hd
+    · intro sp after arms nms lm hd
+      cases arms <;> simp [Frag.depthGArms] at hd
   | succ n ih =>
-    obtain ⟨ihE, ihB, ihA⟩ := ih
-    refine ⟨?_, ?_, ?_⟩
+    obtain ⟨ihE, ihB, ihA, ihM⟩ := ih
+    refine ⟨?_, ?_, ?_, ?_⟩
     · intro e lm hd
       cases e
       case int | bool | str | null | none | float | range | list | anyobj | obj | lambda | assign
-          | index | member | cast | blockE | matchE | tryE =>
+          | index | member | cast | blockE | tryE =>
         exact LblInv.nil mod lm
+      case matchE sp ty c arms dflt =>
+        cases dflt with
+        | none => exact LblInv.nil mod lm
+        | some d =>
+          simp only [Frag.depthGE] at hd
+          simp only [cgE]
+          have h1 := ihE c lm (by omega)
+          generalize cgE mod ρ φ c lm = cc at h1 ⊢
+          have h2 := LblInv.single mod cc.2 "match_after" (by decide)
+          generalize freshLabel mod cc.2 "match_after" = aft at h2 ⊢
+          obtain ⟨ht0, h3⟩ := armTests_lbl mod sp arms aft.2
+          have hlen : arms.length = (armTests mod sp arms aft.2).2.1.length :=
+            (armTests_length mod sp arms aft.2).symm
+          generalize armTests mod sp arms aft.2 = ts at ht0 h3 hlen ⊢
+          have h4 := LblInv.single mod ts.2.2 "match_default" (by decide)
+          generalize freshLabel mod ts.2.2 "match_default" = dfl at h4 ⊢
+          obtain ⟨inner, h5, hperm⟩ := ihM sp aft.1 arms ts.2.1 dfl.2 (by omega) hlen
+          generalize cgArms mod ρ φ sp aft.1 arms ts.2.1 dfl.2 = bs at h5 hperm ⊢
+          have h6 := ihE d bs.2 (by omega)
+          generalize cgE mod ρ φ d bs.2 = cd at h6 ⊢
+          refine (((((h1.append h2).append h3).append h4).append h5).append h6).perm (perm_of_count ?_)
+          intro a
+          have hc := hperm.count_eq a
+          simp only [definedLabels_append, ht0,
+            definedLabels_instr _ _ _ (rfl : isLabel (Instr.jump _ : SInstr) = false),
+            definedLabels_instr _ _ _ (rfl : isLabel (Instr.drop : SInstr) = false),
+            definedLabels_label, definedLabels_nil, List.count_append, List.count_cons, List.count_nil] at hc ⊢
+          omega
       case grouped sp e =>
         rw [cgE]; exact ihE e lm (by simp only [Frag.depthGE] at hd; omega)
       case ident sp ty name g f si =>
@@ -132,6 +193,31 @@ theorem cgE_labels (mod : String) (ρ φ : String → Option String) : ∀ (n : 
         simp only [Frag.depthGArgs] at hd
         simp only [cgArgs, definedLabels_append]
         exact (ihA as lm (by omega)).append (ihE a.2 _ (by omega))
+    · intro sp after arms nms lm hd hlen
+      cases arms with
+      | nil =>
+        cases nms with
+        | nil => exact ⟨[], LblInv.nil mod lm, by simp [cgArms, definedLabels_nil]⟩
+        | cons _ _ => simp at hlen
+      | cons a rest =>
+        cases nms with
+        | nil => simp at hlen
+        | cons nm nms =>
+          simp only [Frag.depthGArms] at hd
+          have h1 := ihE a.2 lm (by omega)
+          obtain ⟨inner, h2, hperm⟩ := ihM sp after rest nms (cgE mod ρ φ a.2 lm).2 (by omega)
+            (by simpa using hlen)
+          refine ⟨definedLabels (cgE mod ρ φ a.2 lm).1 ++ inner, ?_, ?_⟩
+          · simp only [cgArms]; exact h1.append h2
+          · simp only [cgArms]
+            refine perm_of_count ?_
+            intro x
+            have hc := hperm.count_eq x
+            simp only [definedLabels_append,
+              definedLabels_instr _ _ _ (rfl : isLabel (Instr.jump _ : SInstr) = false),
+              definedLabels_instr _ _ _ (rfl : isLabel (Instr.drop : SInstr) = false),
+              definedLabels_label, definedLabels_nil, List.count_append, List.count_cons, List.count_nil] at hc ⊢
+            omega
 
 theorem cgE_lbl (mod : String) (ρ φ : String → Option String) (e : Expr) (lm : LM) :
     LblInv mod lm (cgE mod ρ φ e lm).2 (definedLabels (cgE mod ρ φ e lm).1) :=
@@ -139,7 +225,7 @@ theorem cgE_lbl (mod : String) (ρ φ : String → Option String) (e : Expr) (lm
 
 theorem cgArgs_lbl (mod : String) (ρ φ : String → Option String) (args : List (String × Expr)) (lm : LM) :
     LblInv mod lm (cgArgs mod ρ φ args lm).2 (definedLabels (cgArgs mod ρ φ args lm).1) :=
-  (cgE_labels mod ρ φ (Frag.depthGArgs args)).2.2 args lm (Nat.le_refl _)
+  (cgE_labels mod ρ φ (Frag.depthGArgs args)).2.2.1 args lm (Nat.le_refl _)
 
 theorem cgS_labels (mod fn : String) (φ : String → Option String) : ∀ (n : Nat),
     (∀ (loops : List (String × String)) (st : Stmt) (env : CEnv), Frag.depthGS st ≤ n →
@@ -281,6 +367,86 @@ theorem cgS_labels (mod fn : String) (φ : String → Option String) : ∀ (n : 
               definedLabels_instr _ _ _ (rfl : isLabel (Instr.jump _ : SInstr) = false),
               definedLabels_instr _ _ _ (rfl : isLabel (Instr.setVar _ : SInstr) = false),
               definedLabels_label, definedLabels_nil, List.count_append, List.count_cons, List.count_nil]
+            omega
+        case matchE msp ty c arms dflt =>
+          cases dflt with
+          | none => exact LblInv.nil mod env.lm
+          | some d =>
+            cases d <;> try exact LblInv.nil mod env.lm
+            rename_i db
+            simp only [Frag.depthGS] at hd
+            simp only [cgS]
+            have harms : ∀ (arms : List (List Expr × Expr)) (after : String) (nms : List String) (env' : CEnv),
+                Frag.depthGArmsS arms ≤ n → arms.length = nms.length →
+                ∃ inner, LblInv mod env'.lm (cgArmsS mod fn φ loops msp after arms nms env').2.lm inner ∧
+                  (definedLabels (cgArmsS mod fn φ loops msp after arms nms env').1).Perm (nms ++ inner) := by
+              intro arms
+              induction arms with
+              | nil =>
+                intro after nms env' _ hlen
+                cases nms with
+                | nil => exact ⟨[], LblInv.nil mod _, by simp [cgArmsS, definedLabels_nil]⟩
+                | cons _ _ => simp at hlen
+              | cons a rest iha =>
+                intro after nms env' hda hlen
+                obtain ⟨lits, act⟩ := a
+                cases nms with
+                | nil => simp at hlen
+                | cons nm nms =>
+                  cases act
+                  case blockE b =>
+                    simp only [Frag.depthGArmsS] at hda
+                    have h1 := ihB loops b env' (by omega)
+                    obtain ⟨inner, h2, hperm⟩ := iha after nms (cgBS mod fn φ loops b env').2 (by omega)
+                      (by simpa using hlen)
+                    refine ⟨definedLabels (cgBS mod fn φ loops b env').1 ++ inner, ?_, ?_⟩
+                    · simp only [cgArmsS]; exact h1.append h2
+                    · simp only [cgArmsS]
+                      refine perm_of_count ?_
+                      intro x
+                      have hc := hperm.count_eq x
+                      simp only [definedLabels_append,
+                        definedLabels_instr _ _ _ (rfl : isLabel (Instr.jump _ : SInstr) = false),
+                        definedLabels_instr _ _ _ (rfl : isLabel (Instr.drop : SInstr) = false),
+                        definedLabels_label, definedLabels_nil, List.count_append, List.count_cons,
+                        List.count_nil] at hc ⊢
+                      omega
+                  all_goals
+                    simp only [Frag.depthGArmsS] at hda
+                    obtain ⟨inner, h2, hperm⟩ := iha after nms env' hda (by simpa using hlen)
+                    refine ⟨inner, ?_, ?_⟩
+                    · simp only [cgArmsS]; exact h2
+                    · simp only [cgArmsS]
+                      refine perm_of_count ?_
+                      intro x
+                      have hc := hperm.count_eq x
+                      simp only [definedLabels_append,
+                        definedLabels_instr _ _ _ (rfl : isLabel (Instr.jump _ : SInstr) = false),
+                        definedLabels_instr _ _ _ (rfl : isLabel (Instr.drop : SInstr) = false),
+                        definedLabels_label, definedLabels_nil, List.count_append, List.count_cons,
+                        List.count_nil] at hc ⊢
+                      omega
+            have h1 := cgE_lbl mod (ρS env.scopes) φ c env.lm
+            generalize cgE mod (ρS env.scopes) φ c env.lm = cc at h1 ⊢
+            have h2 := LblInv.single mod cc.2 "match_after" (by decide)
+            generalize freshLabel mod cc.2 "match_after" = aft at h2 ⊢
+            obtain ⟨ht0, h3⟩ := armTests_lbl mod msp arms aft.2
+            have hlen : arms.length = (armTests mod msp arms aft.2).2.1.length :=
+              (armTests_length mod msp arms aft.2).symm
+            generalize armTests mod msp arms aft.2 = ts at ht0 h3 hlen ⊢
+            have h4 := LblInv.single mod ts.2.2 "match_default" (by decide)
+            generalize freshLabel mod ts.2.2 "match_default" = dfl at h4 ⊢
+            obtain ⟨inner, h5, hperm⟩ := harms arms aft.1 ts.2.1 { env with lm := dfl.2 } (by omega) hlen
+            generalize cgArmsS mod fn φ loops msp aft.1 arms ts.2.1 { env with lm := dfl.2 } = bs at h5 hperm ⊢
+            have h6 := ihB loops db bs.2 (by omega)
+            generalize cgBS mod fn φ loops db bs.2 = cd at h6 ⊢
+            refine (((((h1.append h2).append h3).append h4).append h5).append h6).perm (perm_of_count ?_)
+            intro a
+            have hc := hperm.count_eq a
+            simp only [definedLabels_append, ht0,
+              definedLabels_instr _ _ _ (rfl : isLabel (Instr.jump _ : SInstr) = false),
+              definedLabels_instr _ _ _ (rfl : isLabel (Instr.drop : SInstr) = false),
+              definedLabels_label, definedLabels_nil, List.count_append, List.count_cons, List.count_nil] at hc ⊢
             omega
         all_goals exact LblInv.nil mod env.lm
       case whileS sp c body =>
